@@ -7,7 +7,7 @@ import (
 )
 
 func init() {
-	register("C12", "Decided: who may write the message and which handles can be handed out. R-C12-1 Message.ID is stored only in publishImpl under `ID == 0` with a freshly drawn id; R-C12-2 Topic/Payload/QoS/Retain of a caller-visible message are never stored (Subscription only by the SUBACK copy-back); R-C12-3 Dup is set from the dup parameter on every path before Pack, first transmission passes false, the retry handle true, no other callers; R-C12-4 the retry handle re-issues the enclosing call's own message and the deferred first transmission captures a whole-struct copy; R-C12-5 after PUBREC no path or handle leads back to PUBLISH; R-C12-6 QoS 0 never yields a handle; R-C12-7 Retry re-queues exactly continuation + unattempted tail. Not decided: byte equality of retransmitted packets (follows from these + C05), applications mutating their Message during a publish.", checkC12)
+	register("C12", "Decided: who may write the message and which handles can be handed out. R-C12-1 Message.ID is stored only in publishImpl under `ID == 0` with a freshly drawn id; R-C12-2 Topic/Payload/QoS/Retain of a caller-visible message are never stored (Subscription only by the SUBACK copy-back); R-C12-3 Dup is set from the dup parameter on every path before Pack, first transmission passes false, the retry handle true, no other callers; R-C12-4 the retry handle re-issues the enclosing call's own message; R-C12-5 after PUBREC no path or handle leads back to PUBLISH; R-C12-6 QoS 0 never yields a handle; R-C12-7 Retry re-queues exactly continuation + unattempted tail. Not decided: byte equality of retransmitted packets (follows from these + C05), applications mutating their Message during a publish.", checkC12)
 }
 
 // freshBase: the struct a field address belongs to was allocated in the same function (composite literal / local copy).
@@ -21,7 +21,7 @@ func checkC12(r *Run) {
 	r1 := r.Rule("R-C12-1", "Message.ID of a caller-visible message is assigned only in publishImpl, only when it is 0, from newID()")
 	r2 := r.Rule("R-C12-2", "Topic/Payload/QoS/Retain of a caller-visible Message are never written; Subscription fields only by the SUBACK copy-back")
 	r3 := r.Rule("R-C12-3", "Dup := dup parameter on every path before Pack; Publish passes false, the stage-1 handle passes true; no other callers of publishImpl")
-	r4 := r.Rule("R-C12-4", "retry handle re-issues the enclosing call's own message; deferred first transmission captures a complete copy")
+	r4 := r.Rule("R-C12-4", "retry handle re-issues the enclosing call's own message with dup=true")
 	r5 := r.Rule("R-C12-5", "stage monotonicity: after PUBREC only PUBREL-stage handles; no call path to (*pktPublish).Pack")
 	r6 := r.Rule("R-C12-6", "QoS 0 publish never produces a retry handle")
 	r7 := r.Rule("R-C12-7", "Retry re-queues exactly the failed entry's continuation followed by the unattempted tail")
@@ -33,8 +33,7 @@ func checkC12(r *Run) {
 	uses := c.ruleRetryableFailures(nil, sites)
 	c.ruleStageMonotone(r5, sites, uses)
 	c.ruleQoS0NoRetry(r6, sites)
-	c.ruleHandleReissues(r4, uses)
-	c.ruleDeferredCopy(r4)
+	c.ruleHandleReissues(r4, uses, "no-capture-checks")
 	c.ruleRetryRequeue(r7, nil, "multiset")
 
 	pub := c.Func("publishImpl")
